@@ -27,7 +27,7 @@ def register(db):
     db.contract(fn="LazyResultCallback.__call__", assumed=True, params=["fn"],
                 note="the lazily positioned insert of the store callable: `lambda: None` or partial(list.insert, n, store); "
                      "never raises; its effect on the callback list is not modelled (ordering clause of C16 is not decided)")
-    db.contract(fn="asyncify", assumed=True, params=["fn", "run_in_process"], defaults={"run_in_process": "False"},
+    db.contract(fn="repid/_asyncify.py::asyncify", assumed=True, params=["fn", "run_in_process"], defaults={"run_in_process": "False"},
                 returns="func[Callback]", note="wraps a sync or async callable into an async callable")
 
     db.contract(
